@@ -185,6 +185,11 @@ def normalise(tree: ast.AST) -> None:
                             and isinstance(st.value.left, ast.Name) and st.value.left.id == st.targets[0].id):
                         st = ast.copy_location(ast.AugAssign(target=ast.Name(st.targets[0].id, ast.Store()), op=st.value.op, value=st.value.right), st)
                         ast.fix_missing_locations(st)
+                    elif (isinstance(st, ast.Assign) and len(st.targets) == 1 and isinstance(st.targets[0], ast.Subscript) and isinstance(st.value, ast.BinOp) and isinstance(st.value.op, (ast.Add, ast.Sub))
+                            and isinstance(st.value.left, ast.Subscript) and ast.unparse(st.value.left) == ast.unparse(st.targets[0]) and not any(isinstance(x, ast.Call) for x in ast.walk(st.targets[0]))):
+                        # d[k] = d[k] + y  ->  d[k] += y
+                        st = ast.copy_location(ast.AugAssign(target=st.targets[0], op=st.value.op, value=st.value.right), st)
+                        ast.fix_missing_locations(st)
                     nxt = body[i + 1] if i + 1 < len(body) else None
                     if (not isinstance(fn, ast.Module) and isinstance(st, ast.Assign) and len(st.targets) == 1 and isinstance(st.targets[0], ast.Name) and isinstance(nxt, ast.Return)
                             and isinstance(nxt.value, ast.Name) and nxt.value.id == st.targets[0].id and counts.get(nxt.value.id, 0) == 2 * pairs.get(nxt.value.id, 0)):
